@@ -314,6 +314,13 @@ func (p *phaser) alignAgainstRefsAA(seq Sequence, orfsaa []Sequence) (ph PhasedS
 		}
 	}
 
+	// No reference aligns with a positive score on any frame or strand:
+	// there is nothing to phase this sequence on, it is removed
+	if bestseq == nil {
+		ph = p.unphased(seq)
+		return
+	}
+
 	ph = PhasedSequence{
 		Err:      nil,
 		Removed:  false,
@@ -406,6 +413,13 @@ func (p *phaser) alignAgainstRefsNT(seq Sequence, orfs []Sequence) (ph PhasedSeq
 		}
 	}
 
+	// No reference aligns with a positive score on any frame or strand:
+	// there is nothing to phase this sequence on, it is removed
+	if bestseq == nil {
+		ph = p.unphased(seq)
+		return
+	}
+
 	phase = (3 - nbgapstart%3) % 3
 	ph = PhasedSequence{
 		Err:      nil,
@@ -438,4 +452,19 @@ func (p *phaser) alignAgainstRefsNT(seq Sequence, orfs []Sequence) (ph PhasedSeq
 		ph.Removed = true
 	}
 	return
+}
+
+// unphased is the result for a sequence that no reference could be aligned
+// with: removed, taken as it was given, from its first nucleotide
+func (p *phaser) unphased(seq Sequence) PhasedSequence {
+	aa, err := seq.Translate(0, p.geneticcode)
+	if err != nil {
+		aa = NewSequence(seq.Name(), []uint8{}, seq.Comment())
+	}
+	return PhasedSequence{
+		Removed:  true,
+		NtSeq:    seq.Clone(),
+		CodonSeq: seq.Clone(),
+		AaSeq:    aa,
+	}
 }
